@@ -32,6 +32,7 @@ TARGETS = {
     "wallet_utils": ["Bip32Path.is_hardened", "Bip32Path.is_private", "Bip32Path.convert_hardened"],
     "script": ["Script.raw_serialize", "Script.serialize"],
     "bip39": ["correct_entropy_bits_value", "checksum_length", "mnemonic_sentence_length", "mnemonic_from_entropy"],
+    "bip85": ["BIP85DeterministicEntropy.byte_count_from_word_count"],
     "__main__": ["value_in_interval", "address_index", "account_index", "extended_key", "mnemonic", "bip39_seed", "entropy_hex"],
 }
 # external primitives: name -> (params, expected source of the body).  Their semantics is a parameter of the theorems.
